@@ -77,8 +77,18 @@ func (c *Cache[K, D]) Load(key K) (actual *Element[D]) {
 func (c *Cache[K, D]) CheckExpirations(now time.Time) {
 	c.Range(func(key K, value *Element[D]) bool {
 		if value.IsExpired(now) {
-			c.Delete(key)
-			value.onExpire(value.Data())
+			// Range calls us without the lock held: remove the entry only if it is still the one we inspected.
+			removed := false
+			c.ReplaceWithFunc(key, func(oldValue *Element[D], oldLoaded bool) (*Element[D], bool) {
+				if oldLoaded && oldValue == value {
+					removed = true
+					return nil, true
+				}
+				return oldValue, !oldLoaded
+			})
+			if removed {
+				value.onExpire(value.Data())
+			}
 		}
 		return true
 	})
